@@ -123,7 +123,10 @@ class ServerBase(object):
             ctx.out_object = (None,)
 
         elif isinstance(ctx.out_object, Ignored):
-            ctx.out_object = ()
+            # one empty slot per declared return value
+            ctx.out_object = (None,) * max(1,
+                               len(getattr(ctx.descriptor.out_message,
+                                                          '_type_info', ())))
 
     def convert_pull_to_push(self, ctx, gen):
         oobj, = ctx.out_object
